@@ -489,6 +489,32 @@ def check_type0_split(rep, mod):
         raise AnalysisBroken('T-TYPE0-SPLIT: no branch of write_type0_header fixes the block length to a constant')
 
 
+def check_flatten_ll(rep, mod):
+    """levels 1-3 count match lengths individually (index 254 + length) and fold them into the 29 length symbols of RFC 1951 before the dynamic code is built"""
+    import symrun
+    Rr = rep.rule('T-FLATTEN-LL', 'flatten_ll, evaluated exactly for all contents (control flow is constant; the histogram cells are linear forms over their initial values): afterwards cell 257 + c holds the sum of the '
+                 'initial cells 254 + L over exactly the lengths L of RFC 1951 length symbol c (base .. base + 2^extra - 1; 227..257 for symbol 284, 258 alone for 285), and no cell below 257 is touched: a length that '
+                 'occurs is counted for its own symbol and gets a code', floor=29, unit='length symbols')
+    mem = symrun.run(mod, 'flatten_ll')
+    base = R.LEN_BASE
+    extra = R.LEN_EXTRA
+    for c in range(29):
+        Rr.instance()
+        lo = base[c]
+        hi = lo + (1 << extra[c]) - 1
+        if c == 27:
+            hi = 257
+        if c == 28:
+            lo = hi = 258
+        want = {254 + L: 1 for L in range(lo, hi + 1)}
+        got = mem.get(257 + c, {257 + c: 1})
+        Rr.check(got == want, 'igzip/flatten_ll.c:flatten_ll', 'length symbol %d (lengths %d..%d) ends up as %s of the initial histogram; expected the sum of cells %d..%d: matches of some length are counted for the wrong symbol, '
+                'and a symbol whose count comes out 0 gets no code although it is used' % (257 + c, lo, hi, ' '.join('%+d*h[%d]' % (v, k) for k, v in sorted(got.items())[:8]) + (' ...' if len(got) > 8 else ''), 254 + lo, 254 + hi),
+                key='T-FLATTEN-LL|%d' % (257 + c), sample='symbol %d = sum h[%d..%d]' % (257 + c, 254 + lo, 254 + hi) if c in (8, 27, 28) else None)
+    low = [k for k in mem if k < 257]
+    Rr.check(not low, 'igzip/flatten_ll.c:flatten_ll', 'flatten_ll writes literal / end-of-block cells %s' % low[:5], key='T-FLATTEN-LL|low')
+
+
 def check_construn(rep, mod):
     """the one-shot fast path for inputs that start with a long run of 0x00 / 0xFF emits a canned dynamic header (which already contains the
     first literal), (L-1)/258 two-bit codes for "match 258 at distance 1" as zero bits, and a fix-up for the (L-1)%258 remaining bytes."""
@@ -681,6 +707,7 @@ def main(tier):
     rep.attempt(c18.check_useable_schedule, rep, llir.library('default'), Ku)
     rep.attempt(check_construn, rep, llir.library('default'))
     rep.attempt(check_type0_split, rep, llir.library('default'))
+    rep.attempt(check_flatten_ll, rep, llir.library('default'))
     rep.attempt(check_df_lane_limits, rep)
     import stridecover
     rep.attempt(stridecover.check, rep, 'DEFLATE', {'igzip_deflate', 'igzip_histogram', 'igzip_set_long', 'igzip_encode_df', 'igzip_hash'}, 100, lookahead=True)
